@@ -13,7 +13,10 @@ CFG = "INIT Init\nNEXT Next\nINVARIANT Report\nCHECK_DEADLOCK FALSE\n"
 LEAVES = [0, -1, 2 ** 70, 1.5, -0.0, 0.0, float('inf'), float('-inf'), float('nan'), 1e300, True, False, None,
           Ellipsis, '', 'a', "'", '"', '\\', ' ', '\n', 'é', '\x00', "it's \"q\"", 'x' * 30,
           'the quick brown fox jumps over the lazy dog and keeps on running', b'', b'a', b"'", b'\xff\x00',
-          b'bytes ' * 8]
+          b'bytes ' * 8,
+          # both quote kinds in both majorities, long enough to be split into pieces that hold one kind only
+          'both \' and "', 'it\'s \'x\' "y', '"a" "b" \'c', 'say "hi" it\'s a \'test\' of "quotes" here',
+          b'both \' and " in bytes', b'it\'s \'x\' "y" bytes']
 HASHABLE_LEAVES = LEAVES
 
 
